@@ -1,6 +1,7 @@
 SPECIFICATION XSpec
 CONSTANTS
   MaxIdx = 12
+  MaxBump = 12
   Pairs = FALSE
 INVARIANTS OutcomeOK Emit
 CHECK_DEADLOCK FALSE
